@@ -130,8 +130,12 @@ class TrioBackend(AsyncNetworkBackend):
                 stream: trio.abc.Stream = await trio.open_tcp_stream(
                     host=host, port=port, local_address=local_address
                 )
-                for option in socket_options:
-                    stream.setsockopt(*option)  # type: ignore[attr-defined] # pragma: no cover
+                try:
+                    for option in socket_options:
+                        stream.setsockopt(*option)  # type: ignore[attr-defined] # pragma: no cover
+                except Exception as exc:  # pragma: nocover
+                    await stream.aclose()
+                    raise exc
         return TrioStream(stream)
 
     async def connect_unix_socket(
@@ -151,8 +155,12 @@ class TrioBackend(AsyncNetworkBackend):
         with map_exceptions(exc_map):
             with trio.fail_after(timeout_or_inf):
                 stream: trio.abc.Stream = await trio.open_unix_socket(path)
-                for option in socket_options:
-                    stream.setsockopt(*option)  # type: ignore[attr-defined] # pragma: no cover
+                try:
+                    for option in socket_options:
+                        stream.setsockopt(*option)  # type: ignore[attr-defined] # pragma: no cover
+                except Exception as exc:  # pragma: nocover
+                    await stream.aclose()
+                    raise exc
         return TrioStream(stream)
 
     async def sleep(self, seconds: float) -> None:
